@@ -94,8 +94,18 @@ def gen_cases(ctx):
     cases += [[a, b] for a in w2 for b in w2]
     w3 = list(words(l3))
     cases += [[a, b, c] for a in w3 for b in w3 for c in w3]
+    # UTF-16 units whose LOW BYTE is a backslash or a quote (U+305C, U+215C, U+2122, U+0122 ...): a narrowing cast, a byte-wise
+    # comparison or a table indexed by the low byte confuses them with the real ones
+    lowbyte = [0x20, 0x5c, 0x22, 0x305c, 0x2122]
+    def words2(maxlen):
+        for n in range(1, maxlen + 1):
+            for w in itertools.product(lowbyte, repeat=n):
+                yield list(w)
+    cases += [[w] for w in words2(4 if quick else 5)]
+    cases += [[[0x61], a, b] for a in words2(2) for b in words2(2)]
     exhaustive_n = len(cases)
-    alpha2 = ALPHA + [0x0b, 0x41, 0x2f, 0x3a, 0x27, 0xd800, 0xffff, 0x5c, 0x5c, 0x22]
+    alpha2 = ALPHA + [0x0b, 0x41, 0x2f, 0x3a, 0x27, 0xd800, 0xffff, 0x5c, 0x5c, 0x22, 0x305c, 0x215c, 0x015c, 0x5c5c, 0x2122, 0x2022, 0x0122, 0x2222,
+                      0x0120, 0x2009, 0x0a0a]
     for _ in range(nrand):
         nargs = 1 + rng.below(6)
         argv = []
@@ -190,7 +200,7 @@ def check(ctx):
     cov["exhaustive_prefix"] = exhaustive_n
     cov["rule"] = ("argument vectors over {a, space, tab, newline, \", \\, e-acute}: exhaustively all single arguments up to "
                    "length L1, all pairs up to L2, all triples up to L3 (quick 5/2/1, thorough 6/3/2), then random vectors "
-                   "(1-6 args, lengths up to 40, extra units VT, NUL, surrogates, ':' '/' \"'\"); non-trivial = contains an "
+                   "(1-6 args, lengths up to 40, extra units VT, NUL, surrogates, ':' '/' \"'\", and units whose low byte is a special ASCII character); plus all words up to length 4/5 over {space, \\, \", U+305C, U+2122}; non-trivial = contains an "
                    "empty argument or a unit that needs quoting or a backslash; distinct by the vector itself")
     cov["distribution"] = dist
     cov["samples"] = [{"argv": cases[i], "impl": impl[i], "model": model[i]} for i in
